@@ -72,7 +72,7 @@ def gen_cases(ctx):
                     mlevel[str(a)] = rng.choice([l for l in range(1, 5) if l != net_ref.level(a)])
             relay1 = [a for a in relay1 if a]  # a relaying master re-broadcasts to level 0: unspecified
         busy = []
-        if i % 6 == 4:
+        if i % 6 in (4, 2):
             # a routed ACK-typed unicast whose NETWORK_ACK is lost keeps its sender waiting while a
             # multicast to that sender's level arrives (concurrency on purpose)
             # destination: an ABSENT sibling (routed via the parent, whose forward fails), so that
@@ -87,7 +87,7 @@ def gen_cases(ctx):
                     d = par | (c << sh)
                     if d not in nodes and d != net_ref.DEFAULT_ADDR:
                         cands.append((u, d))
-            for _ in range(3):
+            for _ in range(5):
                 if cands:
                     u, d = rng.choice(cands)
                     others = [v for v in nodes if v != u and v not in mc_off]
@@ -110,7 +110,7 @@ def gen_cases(ctx):
             # before its application has called update()
             if rng.random() < 0.5:
                 b["reverse"] = True
-                b["delay"] = rng.choice([0.2, 0.5, 1, 2, 4])
+                b["delay"] = rng.choice([0.1, 0.2, 0.3, 0.5, 0.8, 1, 1.5, 2, 3, 4])
         prefail = []
         if i % 6 == 1:
             # a fragmented unicast that fails outright (absent sibling), then a multicast to the
